@@ -33,6 +33,7 @@ type C06Job struct {
 
 type C06Viol struct {
 	Case   C06Case        `json:"case"`
+	Prev   *C06Case       `json:"prev,omitempty"` // the case executed just before in the same process
 	Class  string         `json:"class"`
 	Detail string         `json:"detail"`
 	Out    plan.Outcome   `json:"outcome"`
@@ -55,12 +56,22 @@ type C06Result struct {
 	ViolCount  int            `json:"violation_count"`
 	Samples    []C06Case      `json:"samples,omitempty"`
 	SampleOut  []string       `json:"sample_outcomes,omitempty"`
+	Verdicts   []C06Verdict   `json:"verdicts,omitempty"` // explicit jobs: one per case
+}
+
+type C06Verdict struct {
+	Class  string         `json:"class,omitempty"`
+	Detail string         `json:"detail,omitempty"`
+	Out    plan.Outcome   `json:"outcome"`
+	Log    []plan.ReadRec `json:"reads"`
 }
 
 var needs = []int{12, 15, 18, 21, 24}
 var errKinds = []string{"eof", "ueof", "err", "weof", "closed"}
 
 type c06run struct {
+	prev     *C06Case
+	explicit bool
 	d    *dev.Dev
 	res  *C06Result
 	seen map[uint64]struct{}
@@ -194,12 +205,18 @@ func (r *c06run) one(c C06Case) {
 		res.Probes["hundred_stalls"]++
 	}
 	relaxFam := c.Family == "boundary" || c.Family == "stalls" || c.Family == "combo"
-	if class, detail := r.judge(&c, &o, relaxFam); class != "" {
+	class, detail := r.judge(&c, &o, relaxFam)
+	if class != "" {
 		res.ViolCount++
 		if len(res.Viol) < 8 {
-			res.Viol = append(res.Viol, C06Viol{Case: c, Class: class, Detail: detail, Out: o, Log: append([]plan.ReadRec(nil), d.Log...)})
+			res.Viol = append(res.Viol, C06Viol{Case: c, Prev: r.prev, Class: class, Detail: detail, Out: o, Log: append([]plan.ReadRec(nil), d.Log...)})
 		}
 	}
+	if r.explicit {
+		res.Verdicts = append(res.Verdicts, C06Verdict{Class: class, Detail: detail, Out: o, Log: append([]plan.ReadRec(nil), d.Log...)})
+	}
+	cc := c
+	r.prev = &cc
 	if len(res.Samples) < r.keep && r.ctr%97 == 0 {
 		res.Samples = append(res.Samples, c)
 		res.SampleOut = append(res.SampleOut, o.Out+" err="+o.Err)
@@ -269,6 +286,7 @@ func RunC06(job *C06Job, d *dev.Dev) *C06Result {
 	}
 	switch job.Kind {
 	case "explicit":
+		r.explicit = true
 		for _, c := range job.Cases {
 			r.one(c)
 		}
